@@ -14,7 +14,7 @@ EXPLANATION = (
     '(diagM_rot0); every QL vector update is a plane rotation with c^2+s^2=1 because the sub-diagonal entries of the active '
     'block stay non-zero, so a successful run returns orthonormal vectors after any number of sweeps, for both the current '
     'absolute and the proposed relative convergence test (diagM_orthonormal); the only error statuses on finite input are '
-    'failure (30 sweeps) and the model-only ub (diagM_error_kinds); diagonal input is decomposed exactly (diagM_diagonal); '
+    'failure (30 sweeps, or an overflowed small-sub-diagonal search) (diagM_error_kinds); diagonal input is decomposed exactly (diagM_diagonal); '
     '(3) given that the inner eigen decompositions are exact (IsEigSys, stated as explicit hypotheses because the QL loop '
     'stops on a threshold and drops the last sub-diagonal entry): matrix functions do not depend on the eigen system used '
     '(formM_fun_congr), exp(log m) = m for positive eigenvalues, log(exp m) = m, sqrt_m squares to m and its two results are '
@@ -62,8 +62,9 @@ ASSUMPTIONS = [
     'convergence of the QL iteration within the 30-sweep cap is not proved (a non-ok status on a finite matrix is an oracle failure)',
     'main-stream tolerances are c*eps_eff*cond-scaled with eps_eff = eps + 1e-14/|M| (the implementation\'s absolute convergence '
     'threshold); the strict stream uses eps_eff = eps and reports the difference as a known finding',
-    'generators keep |entries| < 1e100: for entries >= ~1e154 ref_matrix_diag_m overflows, the small-subdiagonal search falls through '
-    'and the C writes e[3] (UBSan: ref_matrix.c:233 index 3 out of bounds); the model returns the model-only status ub there',
+    'entries >= ~1e154 overflow inside ref_matrix_diag_m; the small-subdiagonal search then falls through and the routine returns '
+    'REF_FAILURE (repair in /repo of the out-of-bounds store e[3] the model used to carry as the status ub); matrix_main exercises '
+    'that branch with entries up to 1e308, the accuracy oracles apply to |entries| < 1e100 only',
     'ref_matrix_inv_m / sqrt_m guards (ref_math_divisible against a normalised pivot) reject matrices with entries >= 1e20 or '
     'eigenvalues <= 1e-20 / 1e-40 whatever their conditioning: outside the metric range 1e-12..1e12, tied but not oracled',
     'ref_matrix_det_m has no finite check (returns 0.0 with REF_SUCCESS on NaN input): not part of the rejection claim',
